@@ -418,6 +418,30 @@ fn encode_udp_packet_simple(payload: &[u8]) -> Result<Bytes> {
     Ok(buf.freeze())
 }
 
+/// Verification hooks (compiled only with `--cfg anytls_rs_verif`).
+#[cfg(anytls_rs_verif)]
+pub mod udp_proxy_verif_hooks {
+    pub async fn read_initial_request(
+        reader: &mut crate::session::StreamReader,
+    ) -> Result<std::net::SocketAddr, String> {
+        super::read_initial_request(reader)
+            .await
+            .map_err(|e| e.to_string())
+    }
+
+    pub async fn read_udp_packet(
+        reader: &mut crate::session::StreamReader,
+    ) -> Result<Vec<u8>, String> {
+        super::read_udp_packet(reader)
+            .await
+            .map_err(|e| e.to_string())
+    }
+
+    pub fn encode_udp_packet_simple(payload: &[u8]) -> Result<bytes::Bytes, String> {
+        super::encode_udp_packet_simple(payload).map_err(|e| e.to_string())
+    }
+}
+
 #[cfg(test)]
 mod tests {
     use super::*;
